@@ -257,7 +257,7 @@ Fixpoint attr_loop (fuel : nat) (ty : etype) (rem : list N) (attrs : list (N * c
       if negb (quote_char =? 34) && negb (quote_char =? 39) then ret (rem, attrs) else
       let rem2 := skipn (equals_pos + 2) rem in
       match find_byte quote_char rem2 with
-      | None => ret (rem2, attrs)
+      | None => ret (rem, attrs)   (* fix: `rem` is advanced only after the closing quote was found *)
       | Some endquote_pos =>
         let attr_value_part := firstn endquote_pos rem2 in
         (do nm <- lift (name_of tab_at attr_name_part);
